@@ -8,7 +8,7 @@ from __future__ import annotations
 import itertools
 from types import SimpleNamespace
 from vlib.hsupport import *  # noqa: F401,F403
-from vlib.hsupport import bs4, cm, cp, ct, sv, ret, part, TIER, html_soup, xml_soup
+from vlib.hsupport import bs4, cm, cp, ct, sv, ret, part, TIER, html_soup, xml_soup, concrete, notrace
 
 # ---------------------------------------------------------------------------------------------
 # reference (written from Selectors-4 §"An+B", not from soupsieve)
@@ -33,7 +33,7 @@ def _layouts():
     out = []
     full = (K_LI, K_LIX, K_P, K_PX, K_TEXT, K_COMMENT)
     small = (K_LI, K_P, K_TEXT)
-    maxfull, maxsmall = (2, 4) if TIER == 'quick' else (4, 7)
+    maxfull, maxsmall = (3, 5) if TIER == 'quick' else (5, 8)
     for n in range(1, maxfull + 1):
         out.extend(itertools.product(full, repeat=n))
     for n in range(maxfull + 1, maxsmall + 1):
@@ -141,7 +141,7 @@ def nth_arith_ok(a: int, b: int, var: bool, last: bool, ki: int, ei: int) -> boo
     return ret(bool(m.match_nth(els[ei][1], (nth,))) == expected)
 
 
-WALK = [(l, c) for l in LAYOUTS for c in (0, 1, 2, 3) if c == 0 or len(l) <= (2 if TIER == 'quick' else 3)]
+WALK = [(l, c) for l in LAYOUTS for c in (0, 1, 2, 3) if c == 0 or len(l) <= (3 if TIER == 'quick' else 4)]
 NW = len(WALK)
 for _l, _c in WALK:
     tree(_l, _c)
@@ -155,24 +155,26 @@ def nth_walk_ok(wi: int, mode: int, last: bool) -> bool:
     """
     # the position the real sibling walk assigns to every element (recovered through :nth-*(p), p = 0..n+1)
     # equals the reference position, for child / of-type / "of .x" counting from either end
-    layout, container = WALK[wi]
-    of_type = mode == 1
-    of_x = mode == 2
-    soup, parent, els = tree(layout, container)
-    m = cm.CSSMatch(ct.SelectorList(), els[0][1] if container == 2 else soup, None, 0)
-    sel = ct.SelectorList() if of_type else (S_CLASS_X if of_x else cp.CSS_NTH_OF_S_DEFAULT)
-    ok = True
-    for i in range(len(els)):
-        pos = ref_position(els, i, last, of_type, of_x)
-        for p in range(0, len(els) + 2):
-            nth = SimpleNamespace(a=p, n=False, b=0, of_type=of_type, last=last, selectors=sel)
-            if bool(m.match_nth(els[i][1], (nth,))) != (pos == p and pos > 0):
-                ok = False
-        # and one variable form per element: 2n+1 / -n+2
-        for (aa, bb) in ((2, 1), (-1, 2)):
-            nth = SimpleNamespace(a=aa, n=True, b=bb, of_type=of_type, last=last, selectors=sel)
-            if bool(m.match_nth(els[i][1], (nth,))) != (pos > 0 and ref_anb(aa, bb, pos)):
-                ok = False
+    wi, mode, last = concrete(wi), concrete(mode), concrete(last)
+    with notrace():
+        layout, container = WALK[wi]
+        of_type = mode == 1
+        of_x = mode == 2
+        soup, parent, els = tree(layout, container)
+        m = cm.CSSMatch(ct.SelectorList(), els[0][1] if container == 2 else soup, None, 0)
+        sel = ct.SelectorList() if of_type else (S_CLASS_X if of_x else cp.CSS_NTH_OF_S_DEFAULT)
+        ok = True
+        for i in range(len(els)):
+            pos = ref_position(els, i, last, of_type, of_x)
+            for p in range(0, len(els) + 2):
+                nth = SimpleNamespace(a=p, n=False, b=0, of_type=of_type, last=last, selectors=sel)
+                if bool(m.match_nth(els[i][1], (nth,))) != (pos == p and pos > 0):
+                    ok = False
+            # and one variable form per element: 2n+1 / -n+2
+            for (aa, bb) in ((2, 1), (-1, 2)):
+                nth = SimpleNamespace(a=aa, n=True, b=bb, of_type=of_type, last=last, selectors=sel)
+                if bool(m.match_nth(els[i][1], (nth,))) != (pos > 0 and ref_anb(aa, bb, pos)):
+                    ok = False
     return ret(ok)
 
 
@@ -300,22 +302,24 @@ def nth_keywords_ok(k: int, container: int, li: int) -> bool:
     post: _
     """
     # :first-child ... :only-of-type select exactly what their An+B instances select (real API)
-    kw, eq = KEYWORDS[k]
-    soup, parent, els = tree(LAYOUTS[li], container)
-    ids = [id(e) for _, e in els]
-    r1 = [id(e) for e in KW_COMPILED[k][0].select(soup) if id(e) in ids]
-    r2 = [id(e) for e in KW_COMPILED[k][1].select(soup) if id(e) in ids]
-    # and both agree with the reference position being `b` (=1) from the relevant end(s)
-    exp = []
-    for i, (kk, e) in enumerate(els):
-        of_type = 'type' in kw
-        need = []
-        if 'first' in kw or 'only' in kw:
-            need.append(ref_position(els, i, False, of_type, False) == 1)
-        if 'last' in kw or 'only' in kw:
-            need.append(ref_position(els, i, True, of_type, False) == 1)
-        if all(need):
-            exp.append(id(e))
+    k, container, li = concrete(k), concrete(container), concrete(li)
+    with notrace():
+        kw, eq = KEYWORDS[k]
+        soup, parent, els = tree(LAYOUTS[li], container)
+        ids = [id(e) for _, e in els]
+        r1 = [id(e) for e in KW_COMPILED[k][0].select(soup) if id(e) in ids]
+        r2 = [id(e) for e in KW_COMPILED[k][1].select(soup) if id(e) in ids]
+        # and both agree with the reference position being `b` (=1) from the relevant end(s)
+        exp = []
+        for i, (kk, e) in enumerate(els):
+            of_type = 'type' in kw
+            need = []
+            if 'first' in kw or 'only' in kw:
+                need.append(ref_position(els, i, False, of_type, False) == 1)
+            if 'last' in kw or 'only' in kw:
+                need.append(ref_position(els, i, True, of_type, False) == 1)
+            if all(need):
+                exp.append(id(e))
     return ret(r1 == r2 == exp)
 
 
